@@ -1,6 +1,6 @@
 (* Properties/C07.v — Diff reports exactly the differences, in a deterministic order. *)
 From Coq Require Import List String Bool ZArith Arith.
-From YT Require Import Base.Str Base.KV Base.Sort Model.Doc Model.Dom Model.Equals Model.Diff Proofs.DiffProofs.
+From YT Require Import Base.Str Base.KV Base.Sort Model.Doc Model.Dom Model.Equals Model.Diff Proofs.DiffProofs Proofs.DiffOrderProofs.
 Import ListNotations.
 Local Open Scope list_scope.
 
@@ -16,15 +16,24 @@ Proof. exact diff_stable. Qed.
 Print Assumptions C07_diff_stable.
 
 (* A stably sorted list is determined by its per-path subsequences: two iteration orders that emit
-   the same subsequence on every path yield identical results.  (That the emission on one path
-   never depends on the iteration order — with path-safe keys two emissions share a path only
-   inside one handleExisting call — is the remaining obligation, currently decided by the
-   correspondence: 10 repeated in-process diffs per pair with re-randomised map iteration.) *)
-Theorem C07_diff_order_independent_partial : forall (o1 o2 : order) l r,
+   the same subsequence on every path yield identical results. *)
+Theorem C07_diff_determined_by_paths : forall (o1 o2 : order) l r,
   (forall p, fk mpath p (diff_raw o1 l r) = fk mpath p (diff_raw o2 l r)) ->
   diff_ord o1 l r = diff_ord o2 l r.
 Proof. exact diff_ord_determined. Qed.
-Print Assumptions C07_diff_order_independent_partial.
+Print Assumptions C07_diff_determined_by_paths.
+
+(* "identical on every invocation": an iteration order is ANY function that permutes the per-key
+   emission blocks of each of the three map walks (flattenContainer, left.Children(),
+   right.Children()), possibly differently at every position of the documents.  For well-formed
+   documents with path-safe keys the result is the same sequence for every such order: blocks of
+   different keys never share a path, so the per-path subsequences are untouched. *)
+Theorem C07_diff_order_independent : forall (o : order) l r,
+  perm_order o ->
+  wf l = true -> keys_safe l = true -> wf r = true -> keys_safe r = true ->
+  diff_ord o l r = diff l r.
+Proof. exact diff_order_independent. Qed.
+Print Assumptions C07_diff_order_independent.
 
 (* Diff(L, L) = [] *)
 Theorem C07_diff_self : forall l, wf l = true -> keys_safe l = true -> diff l l = [].
